@@ -5,6 +5,7 @@ import numpy.linalg as npla
 from autograd.extend import defjvp, defvjp
 
 from . import numpy_wrapper as anp
+from .numpy_vjps import unbroadcast
 from .numpy_wrapper import wrap_namespace
 
 wrap_namespace(npla.__dict__, globals())
@@ -65,11 +66,14 @@ defvjp(pinv, grad_pinv)
 
 
 def grad_solve(argnum, ans, a, b):
-    updim = lambda x: x if x.ndim == a.ndim else x[..., None]
+    # b (and ans, g) may carry more leading (batch) dimensions than a, and vice versa
+    updim = lambda x: x if x.ndim >= a.ndim else x[..., None]
     if argnum == 0:
-        return lambda g: -_dot(updim(solve(T(a), g)), T(updim(ans)))
+        a_meta = anp.metadata(a)
+        return lambda g: unbroadcast(-_dot(updim(solve(T(a), g)), T(updim(ans))), a_meta)
     else:
-        return lambda g: solve(T(a), g)
+        b_meta = anp.metadata(b)
+        return lambda g: unbroadcast(solve(T(a), g), b_meta)
 
 
 defvjp(solve, partial(grad_solve, 0), partial(grad_solve, 1))
